@@ -69,7 +69,7 @@ EmbT(n, t)     == <<n, <<t>>, ST(n), TRUE>>         \* embedded struct with a js
 EmbC(n, l)     == <<n, <<n, l>>, ST(n), TRUE>>      \* embedded struct, untagged
 
 StructNames == {"ZvLeaf", "ZvOdd", "ZvBox", "ZvBase", "ZvDeep", "ZvBase2", "ZvNode", "ZvWrap", "ZvHost",
-                "ZvPair", "ZvEmb", "ZvL4", "ZvL3", "ZvL2", "ZvTower",
+                "ZvPair", "ZvEmb", "ZvL4", "ZvL3", "ZvL2", "ZvTower", "ZvTwin", "ZvCrew",
                 "Person", "Event", "Wings", "Plane", "Snoopy", "Hornet", "Hellcat", "Weather",
                 "SetOfPlanes", "NestOuter", "NestInner"}
 
@@ -102,6 +102,10 @@ StructDecl(S) ==
     [] S = "ZvL3"   -> << EmbC("ZvL4", "zvL4"), Tag("C1", "c1", B("string")), Tag("C2", "c2", B("int")) >>
     [] S = "ZvL2"   -> << EmbC("ZvL3", "zvL3"), Tag("B1", "b1", B("int")) >>
     [] S = "ZvTower" -> << EmbC("ZvL2", "zvL2"), Tag("A1", "a1", B("string")), Tag("Ref", "ref", IFc("ZvAny")) >>
+    (* ZvTwin is registered under TWO names (zvtwin, ZvTwin); ZvCrew carries it through a pointer and an interface *)
+    [] S = "ZvTwin" -> << Tag("N", "n", B("string")), Tag("K", "k", B("int64")) >>
+    [] S = "ZvCrew" -> << Tag("Call", "call", B("string")), Tag("Cap", "cap", P("ZvTwin")), Tag("Rel", "rel", IFc("ZvAny")),
+                          Tag("Nest", "nest", P("NestOuter")) >>
     (* the library's demo structs (zygo/demo_go_structs.go) *)
     [] S = "Person" -> << Tag("First", "first", B("string")), Tag("Last", "last", B("string")) >>
     [] S = "Event"  -> << Tag("Id", "id", B("int")), Tag("User", "user", ST("Person")), Tag("Flight", "flight", B("string")),
@@ -126,27 +130,35 @@ StructOf(S) == StructTab[S]
 (* registered record type name -> struct *)
 RegNames == {"zvleaf", "zvodd", "zvbox", "zvnode", "zvwrap", "zvhost", "zvpair", "zvemb", "zvtower",
              "persondemo", "eventdemo", "snoopy", "hornet", "hellcat", "weather", "plane", "setOfPlanes",
-             "nestouter", "nestinner"}
+             "nestouter", "nestinner", "zvtwin", "zvcrew",
+             "ZvTwin", "NestOuter", "NestInner"}
+(* the second names of the types registered under two names: RegisterUserdef(rt, true, first, second) *)
+SecondNames == {"ZvTwin", "NestOuter", "NestInner"}
 RegOf(n) ==
   CASE n = "zvleaf" -> "ZvLeaf" [] n = "zvodd" -> "ZvOdd" [] n = "zvbox" -> "ZvBox" [] n = "zvnode" -> "ZvNode"
     [] n = "zvwrap" -> "ZvWrap" [] n = "zvhost" -> "ZvHost" [] n = "zvpair" -> "ZvPair" [] n = "zvemb" -> "ZvEmb" [] n = "zvtower" -> "ZvTower"
     [] n = "persondemo" -> "Person" [] n = "eventdemo" -> "Event" [] n = "snoopy" -> "Snoopy"
     [] n = "hornet" -> "Hornet" [] n = "hellcat" -> "Hellcat" [] n = "weather" -> "Weather" [] n = "plane" -> "Plane"
     [] n = "setOfPlanes" -> "SetOfPlanes" [] n = "nestouter" -> "NestOuter" [] n = "nestinner" -> "NestInner"
+    [] n = "zvtwin" -> "ZvTwin" [] n = "zvcrew" -> "ZvCrew"
+    [] n = "ZvTwin" -> "ZvTwin" [] n = "NestOuter" -> "NestOuter" [] n = "NestInner" -> "NestInner"
     [] OTHER -> ""
-RegNameTab == [S \in StructNames |-> IF \E n \in RegNames : RegOf(n) = S THEN CHOOSE n \in RegNames : RegOf(n) = S ELSE ""]
+(* the name a Go value of struct S comes back under: the FIRST name its type was registered with *)
+FirstNames == RegNames \ SecondNames
+RegNameTab == [S \in StructNames |-> IF \E n \in FirstNames : RegOf(n) = S THEN CHOOSE n \in FirstNames : RegOf(n) = S ELSE ""]
 RegNameOf(S) == RegNameTab[S]
-(* Go package of a struct: a registered type is also known to the registry under pkg.Name *)
+AllNamesTab == [S \in StructNames |-> {n \in RegNames : RegOf(n) = S}]
+(* Go package of a struct (only compared with what reflection reports) *)
 PkgOf(S) == IF S \in {"Person", "Event", "Wings", "Plane", "Snoopy", "Hornet", "Hellcat", "Weather", "SetOfPlanes",
                       "NestOuter", "NestInner"} THEN "zygo" ELSE "main"
-(* the names a record of struct S may carry when it comes back (which one is C20's question) *)
-AliasTab == [S \in StructNames |-> {RegNameOf(S), PkgOf(S) \o "." \o S}
-                                       \cup (IF S = "NestOuter" THEN {"NestOuter"} ELSE {})
-                                       \cup (IF S = "NestInner" THEN {"NestInner"} ELSE {})]
-Aliases(S) == AliasTab[S]
+(* The names a record made of a Go value of struct S may carry.  A Go value does not remember the   *)
+(* name its record had: a record that went in under the first registered name must come back under *)
+(* that name (a record survives the trip unchanged); only for the struct types of which a record   *)
+(* went in under a second name (loose) either registered name is accepted.                         *)
+Aliases(S, loose) == IF S \in loose THEN AllNamesTab[S] ELSE {RegNameOf(S)}
 
 IfaceNames == {"ZvAny", "Flyer"}
-Impl(I) == CASE I = "ZvAny" -> {"ZvLeaf", "ZvOdd", "ZvBox", "ZvNode", "ZvWrap", "ZvPair", "ZvEmb", "ZvTower"}
+Impl(I) == CASE I = "ZvAny" -> {"ZvLeaf", "ZvOdd", "ZvBox", "ZvNode", "ZvWrap", "ZvPair", "ZvEmb", "ZvTower", "ZvTwin", "ZvCrew"}
              [] I = "Flyer" -> {"Snoopy", "Hornet", "Hellcat"}
              [] OTHER -> {}
 
@@ -343,6 +355,7 @@ BackFields(fl, vals, i, objs) ==
 BackStruct(gs, objs) == <<"rec", RegNameOf(gs[2]), BackFields(StructOf(gs[2]), gs[3], 1, objs)>>
 
 (* ------------------------------------------------------------------ matching a record that came back *)
+MatchOpts(drop, loose) == [drop |-> drop, loose |-> loose]
 (* field kinds whose value the pinned code hands back as nil (named deviation back-drops-field-kinds) *)
 Dropped(T) == \/ T[1] \in {"slice", "map", "time", "struct"}
               \/ T[1] = "basic" /\ T[2] \in {"int8", "uint", "uint8", "float32"}
@@ -350,37 +363,37 @@ Dropped(T) == \/ T[1] \in {"slice", "map", "time", "struct"}
 (* r: a record as projected by the harness                                                    *)
 (*   <<"int",n>> <<"flt",s>> <<"str",s>> <<"bool",b>> <<"nil">> <<"raw",bs>> <<"time",k>>     *)
 (*   <<"arr",vs>> <<"hash",<<k,v>>*>> <<"rec",typeName,<<key,v>>*>> <<"other",..>>           *)
-(* MatchB: r is the Go value g of type T handed back without loss.  drop = TRUE describes the *)
-(* pinned behaviour instead: the kinds of Dropped come back as nil.                           *)
+(* MatchB: r is the Go value g of type T handed back without loss.  m.drop = TRUE describes *)
+(* the pinned behaviour instead: the kinds of Dropped come back as nil; m.loose: see Aliases. *)
 RECURSIVE MatchB(_, _, _, _, _), MatchStruct(_, _, _, _), MatchFields(_, _, _, _, _, _)
-MatchB(g, T, objs, r, drop) ==
-    IF drop /\ Dropped(T) THEN r[1] = "nil"
+MatchB(g, T, objs, r, m) ==
+    IF m.drop /\ Dropped(T) THEN r[1] = "nil"
     ELSE CASE T[1] = "basic" -> r[1] = g[1] /\ r[2] = g[2]
            [] T[1] = "bytes" -> (r[1] = "raw" /\ r[2] = g[2]) \/ (g[2] = <<>> /\ r[1] = "nil")
            [] T[1] = "time" -> r[1] = "time" /\ r[2] = g[2]
            [] T[1] = "slice" -> \/ g[2] = <<>> /\ r[1] = "nil"
                                 \/ /\ r[1] = "arr" /\ Len(r[2]) = Len(g[2])
-                                   /\ \A i \in 1..Len(g[2]) : MatchB(g[2][i], T[2], objs, r[2][i], drop)
+                                   /\ \A i \in 1..Len(g[2]) : MatchB(g[2][i], T[2], objs, r[2][i], m)
            [] T[1] = "map" -> \/ g[2] = <<>> /\ r[1] = "nil"
                               \/ /\ r[1] = "hash" /\ Len(r[2]) = Len(g[2])
                                  /\ \A i \in 1..Len(g[2]) : \E j \in 1..Len(r[2]) :
                                        /\ (r[2][j][1][1] = "int") = (g[2][i][1][1] = "int")
                                        /\ r[2][j][1][2] = g[2][i][1][2]       \* key by name / number
-                                       /\ MatchB(g[2][i][2], T[3], objs, r[2][j][2], drop)
-           [] T[1] = "struct" -> MatchStruct(g, objs, r, drop)
-           [] T[1] = "ptr" -> (IF g[1] = "nilptr" THEN r[1] = "nil" ELSE MatchStruct(objs[g[2]], objs, r, drop))
-           [] T[1] = "iface" -> (IF g[1] = "niliface" THEN r[1] = "nil" ELSE MatchStruct(objs[g[2][2]], objs, r, drop))
-MatchStruct(gs, objs, r, drop) ==
+                                       /\ MatchB(g[2][i][2], T[3], objs, r[2][j][2], m)
+           [] T[1] = "struct" -> MatchStruct(g, objs, r, m)
+           [] T[1] = "ptr" -> (IF g[1] = "nilptr" THEN r[1] = "nil" ELSE MatchStruct(objs[g[2]], objs, r, m))
+           [] T[1] = "iface" -> (IF g[1] = "niliface" THEN r[1] = "nil" ELSE MatchStruct(objs[g[2][2]], objs, r, m))
+MatchStruct(gs, objs, r, m) ==
     /\ r[1] = "rec"
-    /\ r[2] \in Aliases(gs[2])
-    /\ MatchFields(StructOf(gs[2]), gs[3], 1, objs, r[3], drop)
-MatchFields(fl, vals, i, objs, pairs, drop) ==
+    /\ r[2] \in Aliases(gs[2], m.loose)
+    /\ MatchFields(StructOf(gs[2]), gs[3], 1, objs, r[3], m)
+MatchFields(fl, vals, i, objs, pairs, m) ==
     \/ i > Len(fl)
     \/ /\ i <= Len(fl)
-       /\ IF FEmb(fl[i]) THEN MatchFields(StructOf(FType(fl[i])[2]), vals[i][3], 1, objs, pairs, drop)
+       /\ IF FEmb(fl[i]) THEN MatchFields(StructOf(FType(fl[i])[2]), vals[i][3], 1, objs, pairs, m)
           ELSE \E p \in 1..Len(pairs) : /\ pairs[p][1] = FLabel(fl[i])
-                                        /\ MatchB(vals[i], FType(fl[i]), objs, pairs[p][2], drop)
-       /\ MatchFields(fl, vals, i + 1, objs, pairs, drop)
+                                        /\ MatchB(vals[i], FType(fl[i]), objs, pairs[p][2], m)
+       /\ MatchFields(fl, vals, i + 1, objs, pairs, m)
 
 (* a struct value (and everything reachable from it through pointers) has an embedded field *)
 RECURSIVE HasNil(_)
